@@ -39,7 +39,8 @@ func expectBody(c *nd.Ctx) nd.Result {
 		env.Serve(mux.New(ns, ibb.Handle(h)))
 		expect := func(i int) {
 			conns[i], errs[i] = l.Expect(context.Background(), mustJID(peerJID), "s1")
-			returned[i] = true
+			// published as one step: the stream is used by another thread
+			vs.Atomically(func() { returned[i] = true })
 		}
 		vs.GoNamed("expect1", false, func() { expect(0) })
 		vs.GoNamed("peer", false, func() {
